@@ -46,9 +46,14 @@ type FakeContext struct {
 	BindErr error
 	Request *model.DecisionMaker
 	Calls   []Response
+	bound   *model.DecisionMaker
 }
 
+// lastRequest is the value the handler bound the request into (what an error response must echo).
+func (c *FakeContext) lastRequest() *model.DecisionMaker { return c.bound }
+
 func (c *FakeContext) ShouldBindJSON(obj interface{}) error {
+	c.bound = obj.(*model.DecisionMaker)
 	if c.BindErr != nil {
 		return c.BindErr
 	}
